@@ -164,57 +164,77 @@ def _ref_default_falls_back(f: FunctionInfo) -> bool:
     return "self.reference_circuit" in t
 
 
+def _assemble(f: FunctionInfo, var: str, ref_set: bool, proj_set: bool, ref_param: Optional[str] = None):
+    """fold the statements of f that build the evaluated circuit `var`, with marker circuits R (reference), A (ansatz), P (projective);
+    returns the list of gate labels of the assembled circuit"""
+    from ..consteval import Folder, Raised, Rec, Undecidable
+    from .C17 import CTORS, CircRec
+
+    def mk(label):
+        return CircRec([Rec("Gate", {"name": label, "target": [0], "control": None, "parameter": "", "is_variational": False})])
+    env = {"self.ref_state": (mk("R") if ref_set else None), "self.reference_circuit": (mk("R") if ref_set else CircRec([])),
+           "self.ansatz.circuit": mk("A"), "self.projective_circuit": (mk("P") if proj_set else None), "self.deflation_circuits": []}
+    if ref_param:
+        env[ref_param] = None
+    env["self"] = Rec("VQESolver", {})
+    fo = Folder(env=env, ctors=dict(CTORS))
+    seen = False
+    for st in f.node.body:
+        names_w = {norm(t) for n in ast.walk(st) if isinstance(n, (ast.Assign, ast.AugAssign)) for t in (n.targets if isinstance(n, ast.Assign) else [n.target])}
+        touches = var in names_w or (ref_param is not None and ref_param in names_w)
+        if not touches:
+            continue
+        try:
+            fo.stmt(st)
+            seen = True
+        except (Undecidable, Raised) as e:
+            raise AnalysisError(f"{f.ref}: circuit assembly statement not foldable ({norm(st)[:60]}): {e}")
+    if not seen:
+        raise AnalysisError(f"{f.ref}: no statement assembles `{var}`")
+    c = fo.env.get(var)
+    if c is None and var.startswith("self."):
+        c = fo.env["self"].fields.get(var[5:])
+    return [g.fields["name"] for g in c.fields["_gates"]]
+
+
 def check_circuit_assembly(idx: Index, rep: Report):
+    """the circuit whose expectation is reported, folded with marker circuits for the four configurations (reference override set or not,
+    projective circuit set or not): every evaluation entry point must assemble reference + ansatz + projective"""
     rule = "K8.circuit-assembly"
     ee = idx.function(f"{VQE}::VQESolver.energy_estimation")
-    asg = [n for n in own_nodes(ee.node) if isinstance(n, ast.Assign) and norm(n.targets[0]) == "circuit"]
-    ref_form = "self.ansatz.circuit if self.ref_state is None else self.reference_circuit + self.ansatz.circuit"
-    ok = bool(asg) and norm(asg[0].value) == ref_form
-    rep.decide(ok, rule, ee, asg[0] if asg else ee.node, text="energy: reference override + ansatz circuit", what="the energy is evaluated on reference-state override followed by the ansatz",
-               reason=f"circuit assembled as {norm(asg[0].value) if asg else '?'}")
-    proj = [n for n in own_nodes(ee.node) if isinstance(n, ast.If) and norm(n.test) == "self.projective_circuit" and "circuit += self.projective_circuit" in full(n)]
-    rep.decide(bool(proj), rule, ee, proj[0] if proj else ee.node, text="energy: projective circuit appended", what="the projective circuit always terminates the evaluated circuit",
-               reason="projective circuit not appended in energy_estimation")
+    entries = [(ee, "circuit", None, True), (idx.function(f"{VQE}::VQESolver.simulate"), "self.optimal_circuit", None, True),
+               (idx.function(f"{VQE}::VQESolver.get_resources"), "circuit", None, False),
+               (idx.function(f"{VQE}::VQESolver.operator_expectation"), "circuit", "ref_state", True),
+               (idx.function(f"{VQE}::VQESolver.get_rdm"), "prep_circuit", "ref_state", False),
+               (idx.function(f"{VQE}::VQESolver.get_rdm_uhf"), "prep_circuit", "ref_state", False)]
+    for f, var, ref_param, with_proj in entries:
+        for ref_set in (False, True):
+            for proj_set in ((False, True) if with_proj else (False,)):
+                want = (["R"] if ref_set else []) + ["A"] + (["P"] if proj_set else [])
+                if f.name == "get_resources":
+                    # get_resources additionally appends the first deflation circuit; not part of the evaluated state
+                    pass
+                got = _assemble(f, var, ref_set, proj_set, ref_param)
+                rep.decide(got == want, rule, f, f.node,
+                           text=f"{f.name}: reference override {'set' if ref_set else 'unset'}, projective {'set' if proj_set else 'unset'} -> {' + '.join(want)}",
+                           what="every evaluation entry point prepares the same state: the solver's reference-state override, then the ansatz, then the projective circuit"
+                                + (" (evaluated without an explicit reference argument)" if ref_param else ""),
+                           reason=f"{f.name} assembles {' + '.join(got) if got else 'an empty circuit'} instead of {' + '.join(want)}"
+                                  + (": the default evaluation ignores the solver's reference-state override" if ref_param and ref_set and "R" not in got else ""))
     calls = [c for c in own_nodes(ee.node) if isinstance(c, ast.Call) and norm(c.func) == "self.backend.get_expectation_value"]
     ok = len(calls) == 1 and [norm(a) for a in calls[0].args] == ["self.qubit_hamiltonian", "circuit"] and any(k.arg is None and norm(k.value) == "self.simulate_options" for k in calls[0].keywords)
     rep.decide(ok, rule, ee, calls[0] if calls else ee.node, text="energy = <qubit_hamiltonian> on that circuit, with the solver's simulate options",
                what="the reported energy is the backend expectation of the solver's Hamiltonian on the assembled circuit", reason=f"call {norm(calls[0]) if calls else '?'}")
     upd = [c for c in own_nodes(ee.node) if isinstance(c, ast.Call) and norm(c.func) == "self.ansatz.update_var_params"]
-    ok = bool(upd) and upd[0].lineno < (asg[0].lineno if asg else 0) and norm(upd[0].args[0]) == "var_params"
+    first_use = min((n.lineno for n in own_nodes(ee.node) if isinstance(n, ast.Assign) and norm(n.targets[0]) == "circuit"), default=0)
+    ok = bool(upd) and upd[0].lineno < first_use and norm(upd[0].args[0]) == "var_params"
     rep.decide(ok, rule, ee, upd[0] if upd else ee.node, text="parameters are written into the ansatz before the circuit is evaluated", what="the energy belongs to the parameter vector passed in",
                reason="ansatz parameters not updated before evaluation")
-    # simulate(): optimal circuit
-    sm = idx.function(f"{VQE}::VQESolver.simulate")
-    oc = [n for n in own_nodes(sm.node) if isinstance(n, ast.Assign) and norm(n.targets[0]) == "self.optimal_circuit"]
-    ok = bool(oc) and norm(oc[0].value) == "self.reference_circuit + self.ansatz.circuit if self.ref_state is not None else self.ansatz.circuit" and \
-        "self.optimal_circuit += self.projective_circuit" in full(sm.node)
-    rep.decide(ok, rule, sm, oc[0] if oc else sm.node, text="optimal_circuit: same assembly as the energy", what="the optimal circuit reported is the one whose energy was minimised",
-               reason=f"optimal circuit assembled as {norm(oc[0].value) if oc else '?'}")
-    gr = idx.function(f"{VQE}::VQESolver.get_resources")
-    rc = [n for n in own_nodes(gr.node) if isinstance(n, ast.Assign) and norm(n.targets[0]) == "circuit"]
-    ok = bool(rc) and norm(rc[0].value) == "self.ansatz.circuit if self.ref_state is None else self.reference_circuit + self.ansatz.circuit"
-    rep.decide(ok, rule, gr, rc[0] if rc else gr.node, text="resources: same assembly as the energy", what="resource estimates describe the evaluated circuit", reason="assembly differs")
-    # evaluation entry points with their own ref_state parameter
-    for q in ("VQESolver.operator_expectation", "VQESolver.get_rdm", "VQESolver.get_rdm_uhf"):
-        f = idx.function(f"{VQE}::{q}")
-        asm = [n for n in own_nodes(f.node) if isinstance(n, ast.Assign) and norm(n.targets[0]) in ("circuit", "prep_circuit") and "self.ansatz.circuit" in norm(n.value)]
-        if not asm:
-            raise AnalysisError(f"{q}: circuit assembly not found")
-        form = norm(asm[0].value)
-        uses_param = form == "ref_state + self.ansatz.circuit" and "ref_state" in f.params
-        if uses_param:
-            ok = _ref_default_falls_back(f)
-            rep.decide(ok, rule, f, asm[0], text=f"{q}: default reference = the solver's reference circuit",
-                       what="evaluated without an explicit reference, the state is the one the energy refers to: the solver's reference-state override followed by the ansatz",
-                       reason=f"{q} assembles `{form}` with ref_state defaulting to an empty circuit and never consults self.reference_circuit: for a solver built with "
-                              f"a reference-state override the default evaluation omits the reference preparation (the expectation belongs to another state)")
-        else:
-            ok = form == ref_form
-            rep.decide(ok, rule, f, asm[0], text=f"{q}: assembly {form[:60]}", what="same assembly as the energy", reason=f"assembled as {form}")
     oe = idx.function(f"{VQE}::VQESolver.operator_expectation")
-    ok = "circuit += self.projective_circuit" in full(oe.node)
-    rep.decide(ok, rule, oe, oe.node, text="operator_expectation: projective circuit appended", what="symmetry expectation values are taken on the projected state, like the energy",
-               reason="projective circuit not appended")
+    calls = [c for c in own_nodes(oe.node) if isinstance(c, ast.Call) and norm(c.func) == "self.backend.get_expectation_value"]
+    ok = len(calls) == 1 and norm(calls[0].args[1]) == "circuit" and any(k.arg is None and norm(k.value) == "self.simulate_options" for k in calls[0].keywords)
+    rep.decide(ok, rule, oe, calls[0] if calls else oe.node, text="operator_expectation evaluates on the assembled circuit with the solver's simulate options",
+               what="symmetry expectation values use the same circuit and simulation options as the energy", reason=f"call {norm(calls[0]) if calls else '?'}")
     for q in ("VQESolver.get_rdm", "VQESolver.get_rdm_uhf"):
         f = idx.function(f"{VQE}::{q}")
         if "projective_circuit" not in full(f.node):
